@@ -4,6 +4,7 @@ import (
 	"strings"
 
 	dg "verifharness/designgen"
+	"verifharness/vh"
 )
 
 // ---- sanitising: keep a random design inside the hypotheses of the _partial theorems ----
@@ -252,6 +253,60 @@ func vary(d *dg.Design, k int) *dg.Design {
 	return c
 }
 
+// docVerbs are the verbs of goa's DSL that both kinds of checks expect in the main
+// stream (CONNECT lives in the witness stream).
+var docVerbs = []string{"GET", "HEAD", "POST", "PUT", "DELETE", "OPTIONS", "TRACE", "PATCH"}
+
+// headOK: goa refuses HEAD routes whose responses (success or error) carry a body.
+func headOK(d *dg.Design, s *dg.Service, m *dg.Method) bool {
+	return m.Result == nil && len(m.Errors) == 0 && len(s.Errors) == 0 && len(d.Errors) == 0
+}
+
+// reverb makes the verb an axis of its own: designgen.Random derives the verb from
+// the presence of a body (POST/PUT/PATCH with, GET/DELETE/... without). Here every
+// endpoint gets, whatever its payload, body and parameters are, with probability 2/3
+// a verb drawn uniformly from the eight verbs, and with probability 1/3 a further
+// route on the same path with another verb (so one method is exposed through two
+// verbs). The draws come from their own generator (seeded by the design index).
+func reverb(d *dg.Design, r *vh.RNG) *dg.Design {
+	c := d.Clone()
+	fixInts(c)
+	feat := map[string]bool{}
+	draw := func(s *dg.Service, m *dg.Method, not string) string {
+		for {
+			v := vh.Pick(r, docVerbs)
+			if v == not || (v == "HEAD" && !headOK(c, s, m)) {
+				continue
+			}
+			return v
+		}
+	}
+	for _, s := range c.Services {
+		for _, m := range s.Methods {
+			if m.HTTP == nil || len(m.HTTP.Routes) == 0 {
+				continue
+			}
+			if r.Chance(2, 3) {
+				v := draw(s, m, "")
+				for i := range m.HTTP.Routes {
+					m.HTTP.Routes[i].Verb = v
+				}
+				feat["reverb_"+v] = true
+			}
+			if r.Chance(1, 3) {
+				first := m.HTTP.Routes[0]
+				w := draw(s, m, first.Verb)
+				m.HTTP.Routes = append(m.HTTP.Routes, dg.Route{Verb: w, Path: first.Path})
+				feat["second_verb_"+w] = true
+			}
+		}
+	}
+	for k := range feat {
+		c.Features = append(c.Features, k)
+	}
+	return c
+}
+
 // ---- hand-written designs ----
 
 func obj(fs ...*dg.Field) *dg.Attr { a := dg.A(dg.Obj(fs...)); return &a }
@@ -390,6 +445,37 @@ func coveringDesigns() []*dg.Design {
 		{Name: "top", Methods: []*dg.Method{{Name: "ping", HTTP: &dg.HTTPMap{Routes: []dg.Route{rt("GET", "/ping")}}}},
 			Files: []dg.FileServer{{Path: "/openapi.json", File: "gen/http/openapi.json"}}},
 	}})
+	// c7..c9: the verb is an axis of its own: every verb x {no payload, payload spread over
+	// path, query, header, cookie and body} x {one route, the same method on two routes
+	// with different verbs}; and every other verb on the path of a file server
+	{
+		full := func() *dg.Attr {
+			return obj(rstr("p"), str("q"), rstr("h"), str("c"), rstr("b1"), dg.F("b2", dg.Prim("Int")))
+		}
+		spread := func(routes ...dg.Route) *dg.HTTPMap {
+			return &dg.HTTPMap{Routes: routes, Params: []dg.MapEntry{me("q", "")}, Headers: []dg.MapEntry{me("h", "X-H")}, Cookies: []dg.MapEntry{me("c", "ck")}}
+		}
+		var single, double, onfile []*dg.Method
+		for i, v := range docVerbs {
+			w := docVerbs[(i+3)%len(docVerbs)]
+			single = append(single,
+				&dg.Method{Name: "nb_" + strings.ToLower(v), HTTP: &dg.HTTPMap{Routes: []dg.Route{rt(v, "/nb/"+v)}}},
+				&dg.Method{Name: "b_" + strings.ToLower(v), Payload: full(), HTTP: spread(rt(v, "/b/"+v+"/{p}"))},
+				&dg.Method{Name: "pb_" + strings.ToLower(v), Payload: prim("String"), HTTP: &dg.HTTPMap{Routes: []dg.Route{rt(v, "/pb/"+v)}}})
+			double = append(double,
+				&dg.Method{Name: "nb2_" + strings.ToLower(v), HTTP: &dg.HTTPMap{Routes: []dg.Route{rt(v, "/nb2/"+v), rt(w, "/nb2/"+v)}}},
+				&dg.Method{Name: "b2_" + strings.ToLower(v), Payload: full(), HTTP: spread(rt(v, "/b2/"+v+"/{p}"), rt(w, "/b2/"+v+"/{p}"))},
+				&dg.Method{Name: "b3_" + strings.ToLower(v), Payload: full(), HTTP: spread(rt(v, "/b3/"+v+"/{p}"), rt(w, "/b3alt/"+v+"/{p}/x"))})
+			if v != "GET" {
+				onfile = append(onfile, &dg.Method{Name: "f_" + strings.ToLower(v), Payload: full(), HTTP: spread(rt(v, "/f/{p}/file.json"))},
+					&dg.Method{Name: "g_" + strings.ToLower(v), HTTP: &dg.HTTPMap{Routes: []dg.Route{rt(v, "/g/file.json")}}})
+			}
+		}
+		add(&dg.Design{Name: "cover_verb_single", Services: []*dg.Service{{Name: "vsingle", Methods: single}}})
+		add(&dg.Design{Name: "cover_verb_double", BasePath: "/d", Services: []*dg.Service{{Name: "vdouble", Methods: double}}})
+		add(&dg.Design{Name: "cover_verb_files", Services: []*dg.Service{{Name: "vfiles", Methods: onfile,
+			Files: []dg.FileServer{{Path: "/g/file.json", File: "public/g.json"}, {Path: "/f/fixed/file.json", File: "public/f.json"}}}}})
+	}
 	return ds
 }
 
@@ -402,6 +488,7 @@ func witnessDesigns() []*dg.Design {
 		{Name: "tunnel", HTTP: &dg.HTTPMap{Routes: []dg.Route{rt("CONNECT", "/tunnel")}}},
 		{Name: "probe", HTTP: &dg.HTTPMap{Routes: []dg.Route{rt("TRACE", "/probe")}}},
 		{Name: "ok", HTTP: &dg.HTTPMap{Routes: []dg.Route{rt("GET", "/ok"), rt("CONNECT", "/ok")}}},
+		{Name: "body", Payload: obj(rstr("p"), str("q"), rstr("b")), HTTP: &dg.HTTPMap{Routes: []dg.Route{rt("CONNECT", "/cb/{p}"), rt("POST", "/cb/{p}")}, Params: []dg.MapEntry{me("q", "")}}},
 	}}}})
 	// exclusive bounds are written as numbers
 	ds = append(ds, &dg.Design{Name: "w_excl", Services: []*dg.Service{{Name: "svc", Methods: []*dg.Method{
